@@ -50,7 +50,30 @@ theorem FromSource.from_str_length_rule : ∀ f, Src.signing_key.KSecretKey_from
   obtain ⟨r1, r2, _⟩ := C06.secret_roundtrip M s k hk
   exact ⟨k, hk, r1, r2⟩
 
+/-- `AsRef<[u8]> for KSecretKey` as read from /repo/src is the model's `asRef` on every key object whose stored length lies
+between the prefix and the buffer (no slice panic there). -/
+theorem ksecret_as_ref : ∀ g, Src.signing_key.KSecretKey_as_ref? = some g →
+    ∀ (k : SecretKey), 4 ≤ k.len → k.len ≤ k.buf.length → g k = some k.asRef := by
+  intro g hg; cases hg; intro k h1 h2
+  simp [Src.keys.KSecretKey.as_ref, Rust.Keys.slice, SecretKey.asRef, h1, h2]
+
+/-- C06 (read-back), from the source on both sides: a key object built by the translated `from_str` yields, through the
+translated `as_ref`, exactly the secret that was put in — for every capacity and every secret that fits — without a panic. -/
+theorem FromSource.secret_roundtrip : ∀ f g, Src.signing_key.KSecretKey_from_str? = some f →
+    Src.signing_key.KSecretKey_as_ref? = some g →
+    ∀ (M : Nat) (s : Bytes) (k : SecretKey), f M s = .ok k → g k = some s := by
+  intro f g hf hg M s k hk
+  rw [ksecret_from_str f hf M s] at hk
+  obtain ⟨hl, rfl⟩ := (secretFromStr_ok_iff M s _).1 hk
+  have r := C06.secret_roundtrip M s _ hk
+  have h4 : AWS4.length = 4 := rfl
+  rw [ksecret_as_ref g hg _ (by show 4 ≤ s.length + 4; omega)
+    (by simp only [List.length_append, List.length_replicate, h4]; omega)]
+  exact congrArg some r.1
+
 end SigV4.Tie
 
+#print axioms SigV4.Tie.ksecret_as_ref
+#print axioms SigV4.Tie.FromSource.secret_roundtrip
 #print axioms SigV4.Tie.ksecret_from_str
 #print axioms SigV4.Tie.FromSource.from_str_length_rule
